@@ -48,7 +48,7 @@ KEYS = {
     "C03": lambda line, rows, l: "vote:%s" % rows[run_id(rows, l)]["rs"],
     "C06": lambda line, rows, l: "exec:%s" % rows[run_id(rows, l)]["rs"],
     "C07": lambda line, rows, l: "pacemaker:%s" % rows[run_id(rows, l)]["rs"],
-    "C05": lambda line, rows, l: "progress:%s:%s" % (rows[run_id(rows, l)]["rs"], rows[run_id(rows, l)]["lmode"]),
+    "C05": lambda line, rows, l: "progress:%s" % rows[run_id(rows, l)]["rs"],
 }
 WHAT = {
     "C01": "honest replicas' committed sequences diverge or are not a hash-linked chain",
